@@ -327,6 +327,13 @@ func checkWorkerCounts(rep *core.Report, r2, r3 *core.RuleRun, p *pipeline) {
 		}
 		// block the "message exists" edges: err==nil or msg!=nil. If the increment is still reachable
 		// from the decode within the iteration, it can count a datagram that produced no message.
+		// A non-nil message is evidence of a (partly) successful decode only for the decoders that have a non-fatal
+		// error class and return nil on a fatal error (IPFIX, NetFlow v9/v5). The sFlow decoder has no such class: it
+		// hands back whatever it had decoded when it failed, so only 'error is nil' says the datagram decoded.
+		msgMeansSuccess := false
+		if df := p.decode.Common().StaticCallee(); df != nil && df.Pkg != nil {
+			msgMeansSuccess = df.Pkg.Pkg.Scope().Lookup("nonfatalError") != nil
+		}
 		w := core.Walk{EdgeOK: func(b *ssa.BasicBlock, si int) bool {
 			if b.Succs[si] == loop.Header {
 				return false
@@ -340,14 +347,14 @@ func checkWorkerCounts(rep *core.Report, r2, r3 *core.RuleRun, p *pipeline) {
 				if v == errv && isNil {
 					return false // decode succeeded: message exists
 				}
-				if v == msgv && !isNil {
+				if v == msgv && !isNil && msgMeansSuccess {
 					return false // message exists
 				}
 			}
 			return true
 		}}
-		r2.Check(!w.CanReach(p.decode, ins), key, ins.Pos(), "every path from decode to the increment passes 'error is nil' or 'message is not nil'",
-			"decoded-count can be incremented although decode returned an error and no message")
+		r2.Check(!w.CanReach(p.decode, ins), key, ins.Pos(), "every path from decode to the increment passes 'error is nil' or (for decoders with a non-fatal error class) 'message is not nil'",
+			"decoded-count can be incremented although decode failed (an error and no message; for sFlow: any error, since its decoder returns the partial result with the error)")
 	})
 	if nInc == 0 {
 		r2.Fail(name+":DecodedCount-missing", fn.Pos(), "worker never increments its decoded counter")
